@@ -762,6 +762,16 @@ def run(ctx):
         "arithmetic theorems are over exact rationals (generated *_Q leaves); binary64 behaviour is compared bit-for-bit by the correspondence",
         "config lookup (autoconf) is an oracle table keyed by (class name, attribute name)",
     ]
+    ctx.notes["observations-not-counted"] = [
+        "Prior.with_limits keeps the old message object: the tightened UniformPrior maps the unit interval onto the OLD range and "
+        "rejects values outside the new limits (PriorLimitException); GaussianPrior/LogUniformPrior.with_limits are classmethods that "
+        "ignore the old prior (Gaussian: centred between the limits, sigma = hi - lo, infinite limits). Modelled as they are.",
+        "copy_with_fixed_priors on a frozen model raises AssertionError (the deep copy stays frozen); frozen models are not generated "
+        "for that mode.",
+        "Model.gaussian_prior_model_for_arguments unfreezes the original Model objects (children of a frozen Collection end up "
+        "unfrozen while the Collection stays frozen); assertions are not carried over to the passed model. Neither is part of the "
+        "property text.",
+    ]
     try:
         infos = regenerate()
         ctx.translated = {k: {"source": v["source"], "line": v["line"]} for k, v in infos.items()}
